@@ -234,9 +234,32 @@ impl ReassignmentPath {
     }
 }
 
+/// What the target of `a[i] = v` / `a.b = v` reads: the root variable, the index expressions
+/// and the arguments of method calls along the path.
+impl Dependencies for ReassignmentPath {
+    fn dependencies(&self) -> Vec<super::Dependency> {
+        match self {
+            Self::Ident(ident) => ident.net_dependencies(),
+            Self::ReferenceToSelf(_) => vec![],
+            Self::Index { lhs, index } => {
+                let mut deps = lhs.net_dependencies();
+                deps.append(&mut index.net_dependencies());
+                deps
+            }
+            Self::DotLookup { lhs, dot_chain, .. } => {
+                let mut deps = lhs.net_dependencies();
+                deps.append(&mut dot_chain.net_dependencies());
+                deps
+            }
+        }
+    }
+}
+
 impl Dependencies for Reassignment {
     fn dependencies(&self) -> Vec<super::Dependency> {
-        self.value.net_dependencies()
+        let mut deps = self.value.net_dependencies();
+        deps.append(&mut self.path.net_dependencies());
+        deps
     }
 }
 
